@@ -42,6 +42,36 @@ def main():
     return run_all(cases, jobs)
 
 
+def load_benign(prop=None):
+    """behaviour-preserving edits: (patch path, property) pairs that must stay silent"""
+    bp = os.path.join(HERE, 'benign', 'cases.json')
+    out = []
+    if os.path.exists(bp):
+        for c in json.load(open(bp))['cases']:
+            for p in c['properties']:
+                if prop is None or p == prop:
+                    out.append(dict(patch=os.path.join(HERE, 'benign', c['patch']), property=p))
+    return out
+
+
+def run_benign_case(c):
+    os.makedirs(SCRATCH, exist_ok=True)
+    d = tempfile.mkdtemp(prefix='benign.', dir=SCRATCH)
+    try:
+        subprocess.run(['rsync', '-a', '--exclude', 'target', '--exclude', '.git', '/repo/', d + '/'], check=True)
+        p = subprocess.run(['patch', '-p1', '-s', '-d', d, '-i', c['patch']], capture_output=True, text=True)
+        if p.returncode != 0:
+            return c, 'PATCH-FAILED', p.stdout[-300:] + p.stderr[-300:]
+        env = dict(os.environ, MZK_REPO=d, MZK_EVIDENCE_SUFFIX='.benign')
+        r = subprocess.run([os.path.join(VERIF, 'check'), c['property']], capture_output=True, text=True, env=env, cwd=VERIF)
+        out = r.stdout + r.stderr
+        if r.returncode == 0:
+            return c, 'SILENT', ''
+        return c, ('CHECK-ERROR' if 'CHECK-ERROR' in out else 'FALSE-ALARM'), out[-600:]
+    finally:
+        shutil.rmtree(d, ignore_errors=True)
+
+
 def load_cases(prop=None):
     cases = json.load(open(os.path.join(HERE, 'cases.json')))['cases']
     # the seeded changes written by independent sub-agents (seeded/<id>/patch.diff) are part of the suite: expectation = first rule that reports them
